@@ -50,6 +50,10 @@ def directed_choices():
     for i in range(len(VSPACE_SEPS)):
         for j in range(len(VSPACE_FIELDS)):
             out.append(dict(base, vspace=(i, j), cl='exact' if (i + j) % 2 else 'none', sclose=True))
+    # the content coding under each of its names, with each framing
+    for ce in (b'gzip', b'GZip', b'x-gzip', b'X-Gzip'):
+        for te in ('none', 'chunked'):
+            out.append(dict(base, gzip=True, ce_value=ce, te=te, cl='none' if te != 'none' else 'exact'))
     # chunked bodies with and without trailer fields (never announced by a Trailer header field), chunk extensions
     for tr in (b'', b'X-Trailer: v\r\n', b'X-T:1\r\nX-U: 2\r\n', b'Content-Length: 999\r\n'):
         for conn in ('none', 'keep-alive', 'close'):
@@ -320,6 +324,9 @@ def build_cmsg(ch, rng=None):
                 value = r.choice([b'abc', b'12a', b'1 2', b'0x10'])
             if kind == KCL and val == CL_NEG:
                 value = r.choice([b'-1', b'-20'])
+            if kind == KPAD and val == PAD_CE_GZIP + 1:
+                # spellings of the coding name: case-insensitive, "x-gzip" is gzip (RFC 7230 4.2.3)
+                value = ch.get('ce_value') or r.choice([b'gzip', b'gzip', b'GZip', b'x-gzip', b'X-GZIP'])
         if fmt == 'nospace':
             lines.append(('head', line_text(tok(kind, val, 1), name, value), eol, tok(kind, val, 1)))
         elif fmt == 'folded' and primary:
